@@ -184,7 +184,7 @@ def unchanged(case, loader, snap, what):
     case.check(ok, f"{what}: the source loader / molecules were modified", None)
 
 
-def verify(case, w, loader, rows, what, order="exact", full=True):
+def verify(case, w, loader, rows, what, order="exact", full=True, check_ids=True):
     """rows: model rows expected in `loader` (in order).  Returns the rows in actual order."""
     mole = loader.molecules
     if "uid" not in mole.features.columns:
@@ -204,7 +204,7 @@ def verify(case, w, loader, rows, what, order="exact", full=True):
     rows = [by_uid[u] for u in uids]
     n = len(rows)
     case.check(loader.count() == n, f"{what}: count() disagrees with the molecules table", None)
-    if w.batch and n:
+    if w.batch and n and check_ids:
         ids = mole.features["image-id"].to_list()
         case.check(ids == [r["img"] for r in rows], f"{what}: image-id feature does not name the molecule's tomogram",
                    None, got=ids[:10], want=[r["img"] for r in rows][:10])
@@ -354,15 +354,65 @@ def step(case, rng, w, loader, rows, log):
 
     n = len(rows)
     ops = ["filter", "head", "tail", "sample", "sort", "replace", "copy", "binning1", "group", "group",
-           "filter-mask", "shuffle", "add", "drop-image", "drop-image"]
+           "filter-mask", "shuffle", "add", "drop-image", "drop-image", "nest", "nest"]
     op = ops[int(rng.integers(0, len(ops)))]
     if n == 0:
         op = "copy"
-    if op in ("add", "drop-image") and not (w.batch and w.mode == "code" and w.idtype == "int"):
+    if op in ("add", "drop-image", "nest") and not (w.batch and w.mode == "code" and w.idtype == "int"):
         op = "filter"
     log.append(op)
     before = snapshot(loader)
-    if op == "filter":
+    if op == "nest":
+        # the (possibly sorted / filtered) batch loader is taken apart into its per-tomogram loaders and put together
+        # again inside another batch loader that may already hold a tomogram: every molecule keeps its own tomogram
+        from acryo import BatchLoader
+
+        tgt = BatchLoader(order=w.order, scale=w.scale, output_shape=w.shape)
+        pre_rows = []
+        if rng.random() < 0.6:
+            tgt, pre_rows = _add_tomogram(case, rng, w, tgt, [], log)
+        how = int(rng.integers(0, 4))
+        log[-1] = f"nest[{how},{'pre' if pre_rows else 'empty'}]"
+        n_sub = len(list(loader.loaders))
+        if how == 0:
+            tgt.add_loader(loader)
+        elif how == 1:
+            for sub in loader.loaders:
+                tgt.add_loader(sub)
+        elif how == 2:
+            subs = [loader.loaders[k] for k in list(loader.images.keys()) if k in set(loader.molecules.features["image-id"].to_list())]
+            for sub in subs:
+                tgt.add_loader(sub)
+        else:
+            if pre_rows:
+                tgt.add_loader(BatchLoader.from_loaders(list(loader.loaders), order=w.order, scale=w.scale, output_shape=w.shape))
+            else:
+                tgt = BatchLoader.from_loaders(list(loader.loaders), order=w.order, scale=w.scale, output_shape=w.shape)
+        want_rows = pre_rows + rows
+        case.check(tgt.count() == len(want_rows), "nesting a batch loader lost or duplicated molecules", None,
+                   got=tgt.count(), want=len(want_rows), how=how)
+        got_ids = tgt.molecules.features["image-id"].to_list() if tgt.count() else []
+        case.check(set(got_ids) <= set(tgt.images.keys()), "nested loader: image-id feature names an unregistered image", None,
+                   ids=sorted(set(map(str, got_ids))), images=sorted(map(str, tgt.images.keys())))
+        if tgt.count() == len(want_rows) and set(got_ids) <= set(tgt.images.keys()):
+            out = verify(case, w, tgt, want_rows, f"nest[{how}]", order="subset", check_ids=False)
+            # rows that shared a tomogram before still share one, rows that did not still do not
+            by_uid = dict(zip(tgt.molecules.features["uid"].to_list(), got_ids))
+            groups_before = {}
+            for r in want_rows:
+                groups_before.setdefault(("pre", r["img"]) if r in pre_rows else ("src", r["img"]), set()).add(by_uid.get(r["uid"]))
+            ok_groups = all(len(v) == 1 for v in groups_before.values()) and \
+                len({next(iter(v)) for v in groups_before.values()}) == len(groups_before)
+            case.check(ok_groups, "nested loader: molecules of one tomogram were spread over, or merged with, other image ids",
+                       None, groups={str(k): sorted(map(str, v)) for k, v in groups_before.items()})
+            for r, u in zip(out, tgt.molecules.features["uid"].to_list()):
+                pass
+            new = tgt
+            for r in out:
+                r["img"] = by_uid.get(r["uid"])
+        else:
+            new, out = loader, rows
+    elif op == "filter":
         k = int(rng.integers(0, 3))
         new = loader.filter(pl.col("g") != k)
         want = [r for r in rows if r["g"] != k]
